@@ -37,6 +37,7 @@ type Conn struct {
 	outTotal  int64
 	outErr    error // writes fail with this (client gone / write error)
 	outFailAt int64 // >=0: writes fail once outTotal would exceed this many bytes
+	outCap    int   // >0: send buffer size - Write blocks while this many bytes wait to be taken by the client
 
 	closed      bool // server called Close
 	closedAt    time.Time
@@ -44,7 +45,9 @@ type Conn struct {
 	nClose      int
 
 	rdDeadline time.Time
+	wrDeadline time.Time
 	wake       chan struct{} // cap 1: state changed
+	wakeW      chan struct{} // cap 1: room in the send buffer / write deadline changed / closed
 
 	firstRead   bool // server has called Read at least once (= it started serving this conn)
 	firstReadAt time.Time
@@ -56,12 +59,16 @@ type Conn struct {
 }
 
 func newConn(id int, remote net.Addr) *Conn {
-	return &Conn{id: id, remote: remote, local: &net.TCPAddr{IP: net.IPv4(127, 0, 0, 1), Port: 38008}, wake: make(chan struct{}, 1), outFailAt: -1}
+	return &Conn{id: id, remote: remote, local: &net.TCPAddr{IP: net.IPv4(127, 0, 0, 1), Port: 38008}, wake: make(chan struct{}, 1), wakeW: make(chan struct{}, 1), outFailAt: -1}
 }
 
 func (c *Conn) signal() {
 	select {
 	case c.wake <- struct{}{}:
+	default:
+	}
+	select {
+	case c.wakeW <- struct{}{}:
 	default:
 	}
 }
@@ -142,31 +149,75 @@ func (c *Conn) Write(p []byte) (int, error) {
 	if c.hook != nil {
 		c.hook(c, "conn.Write")
 	}
-	c.mu.Lock()
-	defer c.mu.Unlock()
-	c.writeCalls++
-	if c.closed {
-		return 0, net.ErrClosed
-	}
-	if c.inErr != nil {
-		return 0, c.inErr
-	}
-	if c.outErr != nil {
-		return 0, c.outErr
-	}
-	if c.outFailAt >= 0 && c.outTotal+int64(len(p)) > c.outFailAt {
-		n := int(c.outFailAt - c.outTotal)
-		if n < 0 {
-			n = 0
+	written := 0
+	first := true
+	for {
+		c.mu.Lock()
+		if first {
+			c.writeCalls++
+			first = false
 		}
-		c.out = append(c.out, p[:n]...)
-		c.outTotal += int64(n)
-		c.outErr = syscall.EPIPE
-		return n, c.outErr
+		if c.closed {
+			c.mu.Unlock()
+			return written, net.ErrClosed
+		}
+		if c.inErr != nil {
+			err := c.inErr
+			c.mu.Unlock()
+			return written, err
+		}
+		if c.outErr != nil {
+			err := c.outErr
+			c.mu.Unlock()
+			return written, err
+		}
+		// like the runtime's poller: an expired write deadline fails the call even if the buffer has room
+		if !c.wrDeadline.IsZero() && !time.Now().Before(c.wrDeadline) {
+			c.mu.Unlock()
+			return written, os.ErrDeadlineExceeded
+		}
+		room := len(p) - written
+		if c.outCap > 0 && room > c.outCap-len(c.out) {
+			room = c.outCap - len(c.out)
+		}
+		if room > 0 {
+			chunk := p[written : written+room]
+			if c.outFailAt >= 0 && c.outTotal+int64(len(chunk)) > c.outFailAt {
+				n := int(c.outFailAt - c.outTotal)
+				if n < 0 {
+					n = 0
+				}
+				c.out = append(c.out, chunk[:n]...)
+				c.outTotal += int64(n)
+				c.outErr = syscall.EPIPE
+				err := c.outErr
+				c.mu.Unlock()
+				return written + n, err
+			}
+			c.out = append(c.out, chunk...)
+			c.outTotal += int64(len(chunk))
+			written += room
+		}
+		if written == len(p) {
+			c.mu.Unlock()
+			return written, nil
+		}
+		// send buffer full: wait for the client to take bytes, for the write deadline, or for a close
+		var timer *time.Timer
+		var tch <-chan time.Time
+		if !c.wrDeadline.IsZero() {
+			timer = time.NewTimer(time.Until(c.wrDeadline))
+			tch = timer.C
+		}
+		c.mu.Unlock()
+		select {
+		case <-c.wakeW:
+		case <-tch:
+		}
+		if timer != nil {
+			timer.Stop()
+		}
 	}
-	c.out = append(c.out, p...)
-	c.outTotal += int64(len(p))
-	return len(p), nil
 }
 
 func (c *Conn) Close() error {
@@ -189,6 +240,7 @@ func (c *Conn) Close() error {
 func (c *Conn) LocalAddr() net.Addr  { return c.local }
 func (c *Conn) RemoteAddr() net.Addr { return c.remote }
 func (c *Conn) SetDeadline(t time.Time) error {
+	c.SetWriteDeadline(t)
 	return c.SetReadDeadline(t)
 }
 func (c *Conn) SetReadDeadline(t time.Time) error {
@@ -201,7 +253,16 @@ func (c *Conn) SetReadDeadline(t time.Time) error {
 	c.signal()
 	return nil
 }
-func (c *Conn) SetWriteDeadline(t time.Time) error { return nil }
+func (c *Conn) SetWriteDeadline(t time.Time) error {
+	c.mu.Lock()
+	defer c.mu.Unlock()
+	if c.closed {
+		return net.ErrClosed
+	}
+	c.wrDeadline = t
+	c.signal()
+	return nil
+}
 
 // ---- client side (harness) ----
 
@@ -235,7 +296,21 @@ func (c *Conn) Take() []byte {
 	c.mu.Lock()
 	b := c.out
 	c.out = nil
+	c.signal()
 	c.mu.Unlock()
+	return b
+}
+
+// TakeN removes at most n bytes the server wrote (a client draining slowly).
+func (c *Conn) TakeN(n int) []byte {
+	c.mu.Lock()
+	defer c.mu.Unlock()
+	if n > len(c.out) {
+		n = len(c.out)
+	}
+	b := append([]byte{}, c.out[:n]...)
+	c.out = c.out[n:]
+	c.signal()
 	return b
 }
 
